@@ -14,6 +14,7 @@ LEVEL = "exploration"
 PROPS = ["C08"]
 
 CMDS = "CDNdPUunHTEMXx?"
+WD = 12.0   # watchdog per batch run (seconds); a firing is reported as a hang only after a confirmation run
 
 
 def comparable(out):
@@ -121,24 +122,30 @@ def _stream_worker(a):
     if kind == "hostile":
         for rep in range(a["reps"]):
             data = join(rng, mutate(rng, lines, ids))
-            out, r = daemon.run_batch(b, conf, data, leaks=True)
+            out, r = daemon.run_batch(b, conf, data, leaks=True, timeout=WD)
             results.append(("hostile", data, r, None))
+            if r.hang:
+                break
     elif kind == "prefix":
         data = join(rng, mutate(rng, lines, ids) if rng.random() < 0.5 else [l.encode("latin-1") for l in lines])
         cuts = sorted(set(rng.randrange(len(data) + 1) for _ in range(a["reps"]))) if a["reps"] < len(data) else range(len(data) + 1)
         for cut in cuts:
-            out, r = daemon.run_batch(b, conf, data[:cut], leaks=True)
+            out, r = daemon.run_batch(b, conf, data[:cut], leaks=True, timeout=WD)
             results.append(("prefix@%d" % cut, data[:cut], r, None))
+            if r.hang:
+                break
     elif kind == "chunk":
         hostile = rng.random() < 0.5
         # keep only lines that cannot crash-prone paths? no: the comparison is between segmentations of the SAME stream
         data = join(rng, mutate(rng, lines, ids) if hostile else [l.encode("latin-1") for l in lines])
-        ref_out, ref_r = daemon.run_batch(b, conf, data, leaks=True)
+        ref_out, ref_r = daemon.run_batch(b, conf, data, leaks=True, timeout=WD)
         ref_out = comparable(ref_out)
         results.append(("chunk-ref", data, ref_r, None))
         for rep in range(a["reps"]):
             mx = rng.choice([1, 2, 3, 7, 16, 100, 1000])
-            out, r = daemon.run_batch(b, conf, data, leaks=True, env={"IAUTHD_VERIF_CHUNK": "%d:%d" % (rng.randrange(1 << 30), mx)})
+            if ref_r.hang:
+                break
+            out, r = daemon.run_batch(b, conf, data, leaks=True, timeout=WD, env={"IAUTHD_VERIF_CHUNK": "%d:%d" % (rng.randrange(1 << 30), mx)})
             diff = None
             out = comparable(out)
             if r.clean() and ref_r.clean() and out != ref_out:
@@ -147,7 +154,7 @@ def _stream_worker(a):
             results.append(("chunk<=%d" % mx, data, r, diff))
     elif kind == "junk":
         good = [l.encode("latin-1") for l in lines]
-        ref_out, ref_r = daemon.run_batch(b, conf, b"".join(l + b"\n" for l in good), leaks=True)
+        ref_out, ref_r = daemon.run_batch(b, conf, b"".join(l + b"\n" for l in good), leaks=True, timeout=WD)
         ref_out = comparable(ref_out)
         results.append(("junk-ref", b"\n".join(good), ref_r, None))
         unused = [i for i in (4242, 31337, 77, 123456789, 2147483646) if i not in ids]
@@ -167,7 +174,9 @@ def _stream_worker(a):
                         mixed.append(("-1 %s %s %s :%s" % (rng.choice("Xx"), rng.choice(["login.svc", "drone.svc", "nosuch"]), tag, rng.choice(["OK", "OK a", "NO x", "MORE y"]))).encode())
                 mixed.append(l)
             data = b"".join(l + b"\n" for l in mixed)
-            out, r = daemon.run_batch(b, conf, data, leaks=True)
+            if ref_r.hang:
+                break
+            out, r = daemon.run_batch(b, conf, data, leaks=True, timeout=WD)
             diff = None
             out = comparable(out)
             if r.clean() and ref_r.clean() and out != ref_out:
@@ -242,6 +251,14 @@ def run(chk, tier, scale=1.0):
                 chk.count("differential_pairs_equal")
     for ck, p in sorted(seen_crash.items()):
         data = p["data"]
+        if ck[0] == "hang":
+            out2, r2 = daemon.run_batch(b, p["conf"], data, leaks=True, timeout=3 * WD)
+            if not r2.hang:
+                chk.inconc("watchdog fired once but the run finished when repeated (%s)" % p["tag"])
+                continue
+            chk.violation(Violation("C08", "hang", "hang", "daemon does not terminate at end of input (%s stream, %d bytes; repeated with a %.0f s watchdog); tail of input: %r" % (
+                p["tag"], len(data), 3 * WD, data[-120:]), {"config": p["conf"], "input": data.decode("latin-1"), "tag": p["tag"]}))
+            continue
         try:
             small = minimise(b, p["conf"], data, ck)
         except Exception:
